@@ -22,7 +22,7 @@ def bestFit (code : Nat) : Option UInt8 := (bestFitTable.find? (·.1 == code)).m
 def uniByte (h2 h3 h4 h5 : Nat) : UInt8 :=
   match bestFit (h2 * 4096 + h3 * 256 + h4 * 16 + h5) with
   | some b => b
-  | none =>
+  | Option.none =>
     let low := h4 * 16 + h5
     UInt8.ofNat (if 0 < low && low < 0x5f && h2 == 15 && h3 == 15 then low + 0x20 else low)
 
